@@ -41,6 +41,9 @@ CHECKS = {
  "C16": ("Exhaustive exploration of (rules file, suite of 1..4 inputs, expectation assignment, format, layout) states: rules files from the BFS universe plus files defining the same rule name two and three times; all 4^k assignments of PASS / FAIL / SKIP / no expectation to the first k <= 3 rule names; plain, verbose, JSON, YAML and JUnit renderings; -r/-t and --dir layouts. The per-case passed / failed / unexpected sets, the evaluated status lists and the exit code reported by test are compared with the closed-form rule of the property applied to the per-definition statuses the library entry point (validate) gives on the same input, and all renderings are compared with that same expectation.",
          "Trusted base: the 15-line closed-form 'expectation met' rule, the plain / JSON / YAML / JUnit extractors of the test reporters, run_checks as the validate baseline.",
          "exhaustive enumeration of expectation assignments x inputs x formats x layouts against a closed-form rule over validate's statuses"),
+ "C14": ("Exhaustive exploration of spelling variants: for every AST of a pool (rich hand-built ASTs touching every token class, all BFS programs of size <= 2 in thorough / a subset in quick, a subset of size 3) every token class of the printer alone (29 classes: keyword case per keyword, not/NOT/!, or/OR/|OR|, =/:=, quotes, .n/[n], leading this., indentation, blank lines, trailing spaces, CRLF, line breaks after or / inside lists / inside filters, end-of-line comments, comment lines, operator-level negation spelling), a comment at every inter-token slot, and every pair of classes; parse-tree --print-json with locations removed must equal the canonical spelling's, a rejected spelling is a violation, verdicts must agree on documents; type blocks are compared with their documented desugaring and bare clauses with an explicit default rule by verdict.",
+         "Trusted base: the harness printer (emits only documented synonyms), the location-stripping normaliser (a leading This before a key is the only normalised difference).",
+         "exhaustive enumeration of spelling/layout variants (deviation 1 and 2) per AST, parse-tree and verdict equality"),
 }
 PENDING_REASON = "check under construction in this round (design in DESIGN.md section 5); not claimed until its quick tier runs clean on the unchanged tree"
 ALL = ["C%02d" % i for i in range(1, 20)]
